@@ -34,9 +34,9 @@ Proof.
   destruct (IH (S idx)) as [ps ->]. eexists; reflexivity.
 Qed.
 
-Lemma expected_total_proof : forall tc, expected tc <> Crash.
+Lemma expected_total_proof : forall codec tc, expected codec tc <> Crash.
 Proof.
-  intros tc. unfold expected.
+  intros codec tc. unfold expected.
   destruct ((t_stype tc =? 1) || (t_stype tc =? 2)).
   - unfold expected_unary. destruct (first_def true (t_requests tc)); try discriminate.
     destruct (rd_err d); discriminate.
@@ -51,17 +51,18 @@ Proof.
   destruct o; try congruence; destruct (all_ok l); congruence.
 Qed.
 
-Lemma load_total_proof : forall tcs, load tcs <> Crash.
+Lemma load_total_proof : forall codecs tcs, load codecs tcs <> Crash.
 Proof.
-  intros tcs. unfold load.
+  intros codecs tcs. unfold load.
   destruct (existsb _ tcs); [discriminate|].
   destruct (existsb _ tcs); [discriminate|].
   destruct (has_dup _); [discriminate|].
-  destruct (is_nil _); [discriminate|].
-  pose proof (all_ok_no_crash (map expected (filter expandable tcs))) as H.
-  destruct (all_ok (map expected (filter expandable tcs))); try discriminate.
+  destruct (is_nil _ || is_nil _); [discriminate|].
+  set (perms := flat_map (fun tc => map (fun c => (tc, c)) codecs) (filter expandable tcs)).
+  pose proof (all_ok_no_crash (map (fun p => expected (snd p) (fst p)) perms)) as H.
+  destruct (all_ok (map (fun p => expected (snd p) (fst p)) perms)); try discriminate.
   exfalso; apply H; [|reflexivity].
-  apply Forall_forall. intros o Ho. apply in_map_iff in Ho. destruct Ho as (tc & <- & _).
+  apply Forall_forall. intros o Ho. apply in_map_iff in Ho. destruct Ho as (pm & <- & _).
   apply expected_total_proof.
 Qed.
 
@@ -86,7 +87,7 @@ Proof.
   - rewrite IH. simpl. rewrite <- app_assoc. simpl. destruct d; reflexivity.
 Qed.
 
-Lemma flush_length hs rq k ds : length (flush hs rq k ds) = length ds.
+Lemma flush_length q hs rq k ds : length (flush q hs rq k ds) = length ds.
 Proof. revert k; induction ds as [|d ds IH]; intros k; simpl; [reflexivity|]. rewrite IH. reflexivity. Qed.
 
 Lemma alternate_app n : forall l a b, alternate n l = (a, b) -> a ++ b = l.
@@ -106,7 +107,7 @@ Qed.
 
 (* the gRPC server's handlers compute the same wire as the reference server's *)
 Lemma g_full_loop_spec hs d reqs : forall k sent rn rest pend,
-  full_loop hs k (skipn k (rd_data d)) reqs = (sent, rn, rest, pend) ->
+  full_loop [] hs k (skipn k (rd_data d)) reqs = (sent, rn, rest, pend) ->
   g_full_loop hs (Some d) k reqs = (sent, rn, pend) /\ rest = skipn rn (rd_data d).
 Proof.
   induction reqs as [|r more IH]; intros k sent rn rest pend H; simpl in *.
@@ -123,12 +124,12 @@ Proof.
         - destruct k; discriminate.
         - destruct k; simpl in *; [inversion SK; split; reflexivity|]. apply IHl. exact SK. }
       destruct N as [N1 N2]. rewrite N1.
-      destruct (full_loop hs (S k) ds more) as [[[s1 r1] t1] p1] eqn:F.
+      destruct (full_loop [] hs (S k) ds more) as [[[s1 r1] t1] p1] eqn:F.
       rewrite <- N2 in F. destruct (IH _ _ _ _ _ F) as [G ->].
-      rewrite G. inversion H; subst. split; reflexivity.
+      rewrite G. inversion H; subst. split; [|reflexivity]. destruct (Nat.eqb k 0); reflexivity.
 Qed.
 
-Lemma grpc_server_same_proof : forall st hs reqs, grpc_server st hs reqs = ref_server st hs reqs.
+Lemma grpc_server_same_proof : forall st hs reqs, grpc_server st hs reqs = ref_server st [] hs reqs.
 Proof.
   intros st hs reqs. unfold grpc_server, ref_server.
   destruct (st =? 1).
@@ -142,7 +143,7 @@ Proof.
   unfold g_bidi, srv_bidi. destruct reqs as [|r0 l]; [reflexivity|].
   destruct (rq_full r0).
   - destruct (rq_def r0) as [d|] eqn:D.
-    + destruct (full_loop hs 0 (rd_data d) (r0 :: l)) as [[[s rn] rest] pend] eqn:F.
+    + destruct (full_loop [] hs 0 (rd_data d) (r0 :: l)) as [[[s rn] rest] pend] eqn:F.
       destruct (g_full_loop_spec hs d (r0 :: l) 0 s rn rest pend F) as [G ->].
       rewrite G. reflexivity.
     + simpl. reflexivity.
@@ -165,12 +166,13 @@ Lemma wf_unpack tc : wf tc = true ->
   (1 <= t_stype tc <= 5) /\ wf_headers (t_reqheaders tc) = true
   /\ Forall (req_ok (t_stype tc)) (t_requests tc)
   /\ first_full (t_stype tc) (t_requests tc)
-  /\ (t_stype tc = 1 \/ t_stype tc = 3 -> exists r, t_requests tc = [r]).
+  /\ (t_stype tc = 1 \/ t_stype tc = 3 -> exists r, t_requests tc = [r])
+  /\ (t_get tc = true -> t_stype tc = 1).
 Proof.
-  unfold wf. rewrite !andb_true_iff. intros [[[[[E _] H] F] FF] L].
+  unfold wf. rewrite !andb_true_iff. intros [[[[[[E _] H] F] FF] L] GU].
   unfold expandable in E. apply andb_true_iff in E. destruct E as [E1 E2].
   apply N.leb_le in E1. apply N.leb_le in E2.
-  split; [lia|]. split; [exact H|]. split; [|split].
+  split; [lia|]. split; [exact H|]. split; [|split; [|split]].
   - apply Forall_forall. intros r Hr. rewrite forallb_forall in F. specialize (F r Hr).
     rewrite !andb_true_iff in F. destruct F as [K D].
     apply N.eqb_eq in K.
@@ -180,6 +182,7 @@ Proof.
     apply Bool.eqb_prop in FF. exact FF.
   - intros [S|S]; rewrite S in L; simpl in L; apply Nat.eqb_eq in L;
       destruct (t_requests tc) as [|r [|]]; try discriminate; eexists; reflexivity.
+  - intros G. rewrite G in GU. simpl in GU. apply N.eqb_eq. exact GU.
 Qed.
 
 Lemma kind_resolvable st r : req_ok st r -> resolvable (req_any r) = true.
@@ -195,7 +198,7 @@ Proof. induction 1; simpl; constructor; [eapply kind_resolvable; eassumption|ass
 (* agreement of request infos, payloads, errors                       *)
 (* ------------------------------------------------------------------ *)
 Definition similar (hs hs' : list header) (re ra : reqinfo) : Prop :=
-  ri_timeout re = None /\ ri_timeout ra = None /\ ri_query re = [] /\ ri_requests ra = ri_requests re
+  ri_timeout re = None /\ ri_timeout ra = None /\ included (ri_query re) (ri_query ra) /\ ri_requests ra = ri_requests re
   /\ Forall (fun a => resolvable a = true) (ri_requests re)
   /\ ((ri_headers re = hs /\ ri_headers ra = hs') \/ ri_headers re = []).
 
@@ -208,18 +211,33 @@ Proof.
   - intros _. split; [|split].
     + destruct H as [[-> ->]| ->]; [exact I|apply included_nil].
     + rewrite T1, T2. exact Logic.I.
-    + rewrite Q. apply included_nil.
+    + exact Q.
   - rewrite R. apply requests_agree_refl. exact F.
 Qed.
 
-Lemma similar_info hs hs' l : Forall (fun a => resolvable a = true) l -> similar hs hs' (info hs l) (info hs' l).
-Proof. intros F. repeat split; try reflexivity; [exact F|left; split; reflexivity]. Qed.
+(* the expected request info with the query params [qe] against the echoed one with [qa] *)
+Lemma similar_infoq qe qa hs hs' l : included qe qa -> Forall (fun a => resolvable a = true) l ->
+  similar hs hs' (infoq qe hs l) (infoq qa hs' l).
+Proof.
+  intros Q F. split; [reflexivity|]. split; [reflexivity|]. split; [exact Q|]. split; [reflexivity|].
+  split; [exact F|]. left; split; reflexivity.
+Qed.
+
+(* no query param expected: whatever the handler saw *)
+Lemma similar_info q hs hs' l : Forall (fun a => resolvable a = true) l -> similar hs hs' (info hs l) (infoq q hs' l).
+Proof. intros F. apply similar_infoq; [apply included_nil|exact F]. Qed.
 
 Lemma similar_info_nil hs hs' l : Forall (fun a => resolvable a = true) l -> similar hs hs' (info [] l) (info [] l).
-Proof. intros F. repeat split; try reflexivity; [exact F|right; reflexivity]. Qed.
+Proof.
+  intros F. split; [reflexivity|]. split; [reflexivity|]. split; [apply included_nil|]. split; [reflexivity|].
+  split; [exact F|]. right; reflexivity.
+Qed.
 
 Lemma similar_empty hs hs' : similar hs hs' empty_ri empty_ri.
-Proof. repeat split; try reflexivity; [constructor|right; reflexivity]. Qed.
+Proof.
+  split; [reflexivity|]. split; [reflexivity|]. split; [apply included_nil|]. split; [reflexivity|].
+  split; [constructor|]. right; reflexivity.
+Qed.
 
 Definition pay_ok (hs hs' : list header) (pe pa : payload) : Prop :=
   p_data pe = p_data pa /\ similar hs hs' (p_info pe) (p_info pa).
@@ -250,7 +268,7 @@ Qed.
 (* ------------------------------------------------------------------ *)
 Section Streams.
   Variable tc : tcase.
-  Variables hs' : list header.
+  Variables hs' q : list header.           (* request headers and query params as the handler sees them *)
   Let hs := t_reqheaders tc.
   Let reqs := t_requests tc.
   Hypothesis RES : Forall (fun a => resolvable a = true) (reqs_any reqs).
@@ -258,7 +276,7 @@ Section Streams.
   (* server stream, half duplex: everything with response 0 *)
   Lemma flush_ok datas : (t_stype tc =? 5) = false -> forall k ps,
     expected_stream_payloads tc k datas = Ok ps ->
-    Forall2 (pay_ok hs hs') ps (flush hs' (reqs_any reqs) k datas).
+    Forall2 (pay_ok hs hs') ps (flush q hs' (reqs_any reqs) k datas).
   Proof.
     intros NF. induction datas as [|d ds IH]; intros k ps H; simpl in H.
     - inversion H. constructor.
@@ -272,7 +290,7 @@ Section Streams.
   Lemma surplus_ok datas pend : (t_stype tc =? 5) = true -> forall k ps,
     (length reqs <= k)%nat -> (0 < k)%nat ->
     expected_stream_payloads tc k datas = Ok ps ->
-    Forall2 (pay_ok hs hs') ps (flush hs' pend k datas).
+    Forall2 (pay_ok hs hs') ps (flush q hs' pend k datas).
   Proof.
     intros FD. induction datas as [|d ds IH]; intros k ps L P H; simpl in H.
     - inversion H. constructor.
@@ -294,8 +312,8 @@ Section Streams.
   (* full duplex: the alternation *)
   Lemma full_ok datas : (t_stype tc =? 5) = true -> (0 < length reqs)%nat -> forall k ps sent rn rest pend,
     expected_stream_payloads tc k datas = Ok ps ->
-    full_loop hs' k datas (skipn k reqs) = (sent, rn, rest, pend) ->
-    Forall2 (pay_ok hs hs') ps (sent ++ flush hs' pend rn rest) /\ (rn + length rest = k + length datas)%nat.
+    full_loop q hs' k datas (skipn k reqs) = (sent, rn, rest, pend) ->
+    Forall2 (pay_ok hs hs') ps (sent ++ flush q hs' pend rn rest) /\ (rn + length rest = k + length datas)%nat.
   Proof.
     intros FD NZ. induction datas as [|d ds IH]; intros k ps sent rn rest pend H F; simpl in H.
     - inversion H; subst. destruct (skipn k reqs); simpl in F; inversion F; subst; simpl.
@@ -307,7 +325,7 @@ Section Streams.
         destruct (nth_error (t_requests tc) k) as [r|] eqn:N; [|apply nth_error_None in N; lia].
         destruct (expected_stream_payloads tc (S k) ds) as [ps'| |] eqn:E; try discriminate.
         inversion H; subst. unfold reqs in F. rewrite (skipn_nth _ _ _ N) in F. cbn [full_loop] in F.
-        destruct (full_loop hs' (S k) ds (skipn (S k) (t_requests tc))) as [[[s1 r1] t1] p1] eqn:F1.
+        destruct (full_loop q hs' (S k) ds (skipn (S k) (t_requests tc))) as [[[s1 r1] t1] p1] eqn:F1.
         inversion F; subst. destruct (IH _ _ _ _ _ _ E F1) as [A B].
         simpl. split; [|lia]. constructor; [|exact A].
         split; [reflexivity|]. simpl.
@@ -358,8 +376,8 @@ Proof. unfold wf_headers. rewrite andb_true_iff, negb_true_iff. tauto. Qed.
 Definition stream_kind (st : N) : Prop := st = 3 \/ st = 4 \/ st = 5.
 
 Section Met.
-  Variables (tr_req : list header -> list header) (tr_rsp : wire -> wire).
-  Hypothesis TK : transport_ok tr_req tr_rsp.
+  Variables (tr_req : list header -> list header) (tr_query : bool -> N -> N -> list header) (tr_rsp : wire -> wire).
+  Hypothesis TK : transport_ok tr_req tr_query tr_rsp.
 
   Lemma status_none a : status_agree None a.
   Proof. intros x y H; discriminate. Qed.
@@ -374,30 +392,30 @@ Section Met.
   Proof. intros _ _ EH ET _ IH IT. left. rewrite EH, ET. split; assumption. Qed.
 
   (* one-response calls *)
-  Lemma unary_core st n d0 rq hs hs' cl :
-    st = 1 \/ st = 2 -> included hs hs' -> Forall (fun a => resolvable a = true) rq ->
+  Lemma unary_core st n d0 rq hs hs' qe qa cl :
+    st = 1 \/ st = 2 -> included hs hs' -> included qe qa -> Forall (fun a => resolvable a = true) rq ->
     (forall d, d0 = Some d -> wf_headers (rd_headers d) = true /\ wf_headers (rd_trailers d) = true) ->
     agree (mkD st [])
       (match d0 with
-       | None => mkR [] [] [mkP [] (info hs rq)] None None 0
+       | None => mkR [] [] [mkP [] (infoq qe hs rq)] None None 0
        | Some d => match rd_err d with
-                   | Some x => mkR (rd_headers d) (rd_trailers d) [] (Some (conv_err x [DReq (info hs rq)])) None 0
-                   | None => mkR (rd_headers d) (rd_trailers d) [mkP (hd [] (rd_data d)) (info hs rq)] None None 0
+                   | Some x => mkR (rd_headers d) (rd_trailers d) [] (Some (conv_err x [DReq (infoq qe hs rq)])) None 0
+                   | None => mkR (rd_headers d) (rd_trailers d) [mkP (hd [] (rd_data d)) (infoq qe hs rq)] None None 0
                    end
        end)
-      (client_of cl st n (tr_rsp (unary_wire d0 (parse_unary hs' d0 rq)))).
+      (client_of cl st n (tr_rsp (unary_wire d0 (parse_unary qa hs' d0 rq)))).
   Proof.
-    intros ST I R WF.
+    intros ST I IQ R WF.
     assert (U : (st =? 1) || (st =? 2) = true).
     { destruct ST as [-> | ->]; reflexivity. }
-    assert (SI : similar hs hs' (info hs rq) (info hs' rq)) by (apply similar_info; exact R).
+    assert (SI : similar hs hs' (infoq qe hs rq) (infoq qa hs' rq)) by (apply similar_infoq; [exact IQ|exact R]).
     destruct d0 as [d|]; [destruct (WF d eq_refl) as [WH WT]; destruct (rd_err d) as [x|] eqn:X|].
     - (* error *)
       unfold parse_unary. rewrite X. cbn [unary_wire def_headers def_trailers].
-      set (w := mkW (rd_headers d) (rd_trailers d) [] (Some (conv_err x [DReq (info hs' rq)]))).
-      assert (ERR : error_agree [] (Some (conv_err x [DReq (info hs rq)])) (Some (conv_err x [DReq (info hs' rq)]))).
-      { apply conv_err_agree. constructor; [|constructor]. simpl. eapply similar_agree; eassumption. }
-      destruct cl; unfold client_of, ref_client, grpc_client; rewrite U, (tk_err _ _ TK w); simpl w_err; cbv iota.
+      set (w := mkW (rd_headers d) (rd_trailers d) [] (Some (conv_err x [DReq (infoq qa hs' rq)]))).
+      assert (ERR : error_agree [] (Some (conv_err x [DReq (infoq qe hs rq)])) (Some (conv_err x [DReq (infoq qa hs' rq)]))).
+      { apply conv_err_agree. constructor; [|constructor]. simpl. eapply similar_agree; [exact I|exact SI]. }
+      destruct cl; unfold client_of, ref_client, grpc_client; rewrite U, (tk_err _ _ _ TK w); simpl w_err; cbv iota.
       + split; [exact ERR|]. split; [split; [reflexivity|intros i pe pa He; destruct i; discriminate]|].
         split; [|apply status_none].
         right. split.
@@ -406,30 +424,30 @@ Section Met.
           assert (IN : In k (all_names w)).
           { unfold all_names. simpl. rewrite <- Hk. apply in_app_iff in Hin. apply in_app_iff.
             destruct Hin as [Hin|Hin]; [left|right]; apply (in_map lname) in Hin; exact Hin. }
-          destruct (tk_meta _ _ TK w WH WT ltac:(discriminate) k IN) as (vs & C & SV).
+          destruct (tk_meta _ _ _ TK w WH WT ltac:(discriminate) k IN) as (vs & C & SV).
           exists vs. split; [exact C|]. unfold merged_vals. simpl r_headers. simpl r_trailers.
           rewrite (nodup_last_all _ k (wf_headers_nodup _ WH)). exact SV.
       + split; [exact ERR|]. split; [split; [reflexivity|intros i pe pa He; destruct i; discriminate]|].
         split; [|apply status_none].
-        left. split; [apply (tk_hdrs _ _ TK w WH)|apply (tk_trls _ _ TK w WT)].
+        left. split; [apply (tk_hdrs _ _ _ TK w WH)|apply (tk_trls _ _ _ TK w WT)].
     - (* a response *)
       unfold parse_unary. rewrite X. cbn [unary_wire def_headers def_trailers].
-      set (w := mkW (rd_headers d) (rd_trailers d) [mkP (hd [] (rd_data d)) (info hs' rq)] None).
-      assert (A : agree (mkD st []) (mkR (rd_headers d) (rd_trailers d) [mkP (hd [] (rd_data d)) (info hs rq)] None None 0)
+      set (w := mkW (rd_headers d) (rd_trailers d) [mkP (hd [] (rd_data d)) (infoq qa hs' rq)] None).
+      assert (A : agree (mkD st []) (mkR (rd_headers d) (rd_trailers d) [mkP (hd [] (rd_data d)) (infoq qe hs rq)] None None 0)
                         (mkR (w_headers (tr_rsp w)) (w_trailers (tr_rsp w)) (w_msgs w) None None 0)).
       { split; [exact Logic.I|]. split.
         - eapply pay_ok_agree; [exact I|]. constructor; [|constructor]. split; [reflexivity|exact SI].
-        - split; [|apply status_none]. left. split; [apply (tk_hdrs _ _ TK w WH)|apply (tk_trls _ _ TK w WT)]. }
-      destruct cl; unfold client_of, ref_client, grpc_client; rewrite U, (tk_err _ _ TK w), (tk_msgs _ _ TK w); exact A.
+        - split; [|apply status_none]. left. split; [apply (tk_hdrs _ _ _ TK w WH)|apply (tk_trls _ _ _ TK w WT)]. }
+      destruct cl; unfold client_of, ref_client, grpc_client; rewrite U, (tk_err _ _ _ TK w), (tk_msgs _ _ _ TK w); exact A.
     - (* no definition *)
       unfold parse_unary. cbn [unary_wire def_headers def_trailers].
-      set (w := mkW [] [] [mkP [] (info hs' rq)] None).
-      assert (A : agree (mkD st []) (mkR [] [] [mkP [] (info hs rq)] None None 0)
+      set (w := mkW [] [] [mkP [] (infoq qa hs' rq)] None).
+      assert (A : agree (mkD st []) (mkR [] [] [mkP [] (infoq qe hs rq)] None None 0)
                         (mkR (w_headers (tr_rsp w)) (w_trailers (tr_rsp w)) (w_msgs w) None None 0)).
       { split; [exact Logic.I|]. split.
         - eapply pay_ok_agree; [exact I|]. constructor; [|constructor]. split; [reflexivity|exact SI].
         - split; [|apply status_none]. left. split; apply included_nil. }
-      destruct cl; unfold client_of, ref_client, grpc_client; rewrite U, (tk_err _ _ TK w), (tk_msgs _ _ TK w); exact A.
+      destruct cl; unfold client_of, ref_client, grpc_client; rewrite U, (tk_err _ _ _ TK w), (tk_msgs _ _ _ TK w); exact A.
   Qed.
 
   (* streams: the client reports the wire as it is *)
@@ -451,11 +469,11 @@ Section Met.
   Proof.
     intros SK I WH WT P D. rewrite (stream_client _ _ _ _ SK).
     set (w := mkW (rd_headers d) (rd_trailers d) msgs (option_map (fun e => conv_err e ex') (rd_err d))).
-    rewrite (tk_err _ _ TK w), (tk_msgs _ _ TK w). simpl w_err. simpl w_msgs.
+    rewrite (tk_err _ _ _ TK w), (tk_msgs _ _ _ TK w). simpl w_err. simpl w_msgs.
     split; [|split; [|split]].
     - simpl. destruct (rd_err d) as [x|]; [|exact Logic.I]. apply conv_err_agree. apply D. discriminate.
     - eapply pay_ok_agree; eassumption.
-    - left. split; [apply (tk_hdrs _ _ TK w WH)|apply (tk_trls _ _ TK w WT)].
+    - left. split; [apply (tk_hdrs _ _ _ TK w WH)|apply (tk_trls _ _ _ TK w WT)].
     - apply status_none.
   Qed.
 
@@ -463,7 +481,7 @@ Section Met.
     agree (mkD st []) (mkR [] [] [] None None 0) (client_of cl st n (tr_rsp empty_wire)).
   Proof.
     intros SK. rewrite (stream_client _ _ _ _ SK).
-    rewrite (tk_err _ _ TK empty_wire), (tk_msgs _ _ TK empty_wire). simpl.
+    rewrite (tk_err _ _ _ TK empty_wire), (tk_msgs _ _ _ TK empty_wire). simpl.
     split; [exact Logic.I|]. split; [split; [reflexivity|intros i pe pa He; destruct i; discriminate]|].
     split; [left; split; apply included_nil|apply status_none].
   Qed.
@@ -484,17 +502,34 @@ Section Met.
     - destruct ST as [->|[->| ->]]; reflexivity.
   Qed.
 
-  Lemma expectation_met_proof_body : forall tc e, wf tc = true -> fd_immediate_error_multi tc = false -> expected tc = Ok e ->
-    forall sv cl, agree (case_def tc) e (observed tr_req tr_rsp (server_of sv) (client_of cl) tc).
+  (* the query params a GET case expects are among those the protocol prescribes *)
+  Lemma expected_query_included codec comp : known_codec codec ->
+    included (expected_query codec) (tr_query true codec comp).
   Proof.
-    intros tc e WF KC EX sv cl.
-    destruct (wf_unpack tc WF) as (RNG & WH & RQ & FF & ONE).
+    intros KC h Hin. apply (tk_query _ _ _ TK codec comp KC).
+    unfold expected_query, connect_get_params, codec_name, codec_param in *.
+    destruct KC as [-> | ->]; simpl in *; tauto.
+  Qed.
+
+  Lemma expectation_met_proof_body : forall tc codec comp e, wf tc = true -> fd_immediate_error_multi tc = false ->
+    known_codec codec -> expected codec tc = Ok e ->
+    forall sv cl, peers_apply sv cl tc ->
+    agree (case_def tc) e (observed tr_req tr_query tr_rsp (server_of sv) (client_of cl) codec comp tc).
+  Proof.
+    intros tc codec comp e WF KC KCO EX sv cl PA.
+    destruct (wf_unpack tc WF) as (RNG & WH & RQ & FF & ONE & GU).
     unfold observed, case_def.
-    replace (server_of sv (t_stype tc) (tr_req (t_reqheaders tc)) (t_requests tc))
-      with (ref_server (t_stype tc) (tr_req (t_reqheaders tc)) (t_requests tc))
-      by (destruct sv; [reflexivity|symmetry; apply grpc_server_same_proof]).
+    (* what the handler sees as query: the transport's for the reference server, nothing for the gRPC one *)
+    set (qa := match sv with RefServer => tr_query (t_get tc) codec comp | GrpcServer => [] end).
+    replace (server_of sv (t_stype tc) (tr_query (t_get tc) codec comp) (tr_req (t_reqheaders tc)) (t_requests tc))
+      with (ref_server (t_stype tc) qa (tr_req (t_reqheaders tc)) (t_requests tc))
+      by (destruct sv; [reflexivity|unfold server_of, grpc_server_q; symmetry; apply grpc_server_same_proof]).
+    set (qe := if t_get tc then expected_query codec else []) in *.
+    assert (IQ : included qe qa).
+    { unfold qe, qa. unfold peers_apply in PA. destruct (t_get tc); [|apply included_nil].
+      destruct (PA eq_refl) as [-> _]. apply expected_query_included. exact KCO. }
     set (hs := t_reqheaders tc) in *. set (hs' := tr_req hs).
-    assert (I : included hs hs') by (apply (tk_req _ _ TK); exact WH).
+    assert (I : included hs hs') by (apply (tk_req _ _ _ TK); exact WH).
     assert (RES : Forall (fun a => resolvable a = true) (reqs_any (t_requests tc))) by (eapply reqs_resolvable; exact RQ).
     assert (ST : t_stype tc = 1 \/ t_stype tc = 2 \/ stream_kind (t_stype tc)).
     { unfold stream_kind. lia. }
@@ -506,7 +541,7 @@ Section Met.
       rewrite (first_def_wf (t_stype tc) true [r] RQ (or_introl S1)) in EX.
       unfold ref_server. rewrite S1. simpl N.eqb. cbv iota. unfold srv_unary.
       inversion RQ as [|? ? [_ WD] _]; subst.
-      pose proof (unary_core 1 (length [r]) (rq_def r) [req_any r] hs hs' cl (or_introl eq_refl) I RES WD) as A.
+      pose proof (unary_core 1 (length [r]) (rq_def r) [req_any r] hs hs' qe qa cl (or_introl eq_refl) I IQ RES WD) as A.
       destruct (rq_def r) as [d|]; [destruct (rd_err d)|]; inversion EX; subst; exact A.
     - (* client stream *)
       rewrite S2 in EX. simpl in EX. unfold expected_unary in EX.
@@ -516,7 +551,7 @@ Section Met.
       set (d0 := match t_requests tc with [] => None | r :: _ => rq_def r end).
       assert (WD : forall d, d0 = Some d -> wf_headers (rd_headers d) = true /\ wf_headers (rd_trailers d) = true).
       { unfold d0. destruct (t_requests tc) as [|r l]; [discriminate|]. inversion RQ as [|? ? [_ W] _]; subst. exact W. }
-      pose proof (unary_core 2 (length (t_requests tc)) d0 (reqs_any (t_requests tc)) hs hs' cl (or_intror eq_refl) I RES WD) as A.
+      pose proof (unary_core 2 (length (t_requests tc)) d0 (reqs_any (t_requests tc)) hs hs' qe qa cl (or_intror eq_refl) I IQ RES WD) as A.
       unfold d0 in *. destruct (t_requests tc) as [|r l]; [inversion EX; subst; exact A|].
       destruct (rq_def r) as [d|]; [destruct (rd_err d)|]; inversion EX; subst; exact A.
     - (* streams *)
@@ -524,8 +559,8 @@ Section Met.
       assert (YS : (t_stype tc =? 3) || (t_stype tc =? 4) || (t_stype tc =? 5) = true) by (destruct SK as [->|[->| ->]]; reflexivity).
       rewrite NU, YS in EX. unfold expected_stream in EX.
       rewrite (first_def_wf (t_stype tc) false _ RQ SK) in EX.
-      assert (SRV : ref_server (t_stype tc) hs' (t_requests tc) =
-                    if t_stype tc =? 3 then srv_server_stream hs' (t_requests tc) else srv_bidi hs' (t_requests tc)).
+      assert (SRV : ref_server (t_stype tc) qa hs' (t_requests tc) =
+                    if t_stype tc =? 3 then srv_server_stream qa hs' (t_requests tc) else srv_bidi qa hs' (t_requests tc)).
       { unfold ref_server. destruct SK as [->|[->| ->]]; reflexivity. }
       rewrite SRV. clear SRV.
       destruct (t_requests tc) as [|r0 l] eqn:ER.
@@ -551,7 +586,7 @@ Section Met.
         apply N.eqb_eq in E3. destruct (ONE (or_intror E3)) as [r Er]. inversion Er; subst.
         unfold srv_server_stream. rewrite D. unfold final_err.
         assert (NF : (t_stype tc =? 5) = false) by (rewrite E3; reflexivity).
-        pose proof (flush_ok tc hs' ltac:(rewrite ER; exact RES) (rd_data d) NF 0 ps EP) as P.
+        pose proof (flush_ok tc hs' qa ltac:(rewrite ER; exact RES) (rd_data d) NF 0 ps EP) as P.
         rewrite ER in P. simpl reqs_any in P.
         apply (stream_core _ _ _ _ hs hs'); try assumption. intros _.
         destruct (rd_data d); simpl; constructor; [|constructor].
@@ -559,9 +594,9 @@ Section Met.
       + unfold srv_bidi. rewrite D, FU.
         destruct (t_stype tc =? 5) eqn:E5.
         * (* full duplex *)
-          destruct (full_loop hs' 0 (rd_data d) (r0 :: l)) as [[[sent rn] rest] pend] eqn:FL.
+          destruct (full_loop qa hs' 0 (rd_data d) (r0 :: l)) as [[[sent rn] rest] pend] eqn:FL.
           assert (NZ : (0 < length (t_requests tc))%nat) by (rewrite ER; simpl; lia).
-          pose proof (full_ok tc hs' ltac:(rewrite ER; exact RES) (rd_data d) E5 NZ 0 ps sent rn rest pend EP) as FO.
+          pose proof (full_ok tc hs' qa ltac:(rewrite ER; exact RES) (rd_data d) E5 NZ 0 ps sent rn rest pend EP) as FO.
           rewrite ER in FO. simpl skipn in FO. destruct (FO FL) as [P TOT]. clear FO.
           unfold final_err. apply (stream_core _ _ _ _ hs hs'); try assumption. intros NE.
           rewrite TOT. simpl. destruct (rd_data d) as [|x xs] eqn:DD; simpl; [|constructor].
@@ -577,7 +612,7 @@ Section Met.
           rewrite recv_all_spec. simpl snd. simpl app.
           unfold final_err.
           assert (NF : (t_stype tc =? 5) = false) by exact E5.
-          pose proof (flush_ok tc hs' ltac:(rewrite ER; exact RES) (rd_data d) NF 0 ps EP) as P.
+          pose proof (flush_ok tc hs' qa ltac:(rewrite ER; exact RES) (rd_data d) NF 0 ps EP) as P.
           rewrite ER in P.
           apply (stream_core _ _ _ _ hs hs'); try assumption. intros _.
           destruct (rd_data d); simpl; constructor; [|constructor].
@@ -590,22 +625,24 @@ End Met.
 (* ------------------------------------------------------------------ *)
 Lemma expectation_agrees_proof : expectation_met_statement.
 Proof.
-  intros tr_req tr_rsp TK tc e WF KC EX sv cl. unfold passes.
-  apply (expectation_met_proof_body tr_req tr_rsp TK); assumption.
+  intros tr_req tr_query tr_rsp TK tc codec comp e WF KC KCO EX sv cl PA. unfold passes.
+  apply (expectation_met_proof_body tr_req tr_query tr_rsp TK); assumption.
 Qed.
 
 Lemma expectation_met_proof :
-  forall tr_req tr_rsp, transport_ok tr_req tr_rsp ->
-  forall tc e, wf tc = true -> fd_immediate_error_multi tc = false -> expected tc = Ok e ->
-  forall sv cl, assert_errs (case_def tc) e (observed tr_req tr_rsp (server_of sv) (client_of cl) tc) = [].
+  forall tr_req tr_query tr_rsp, transport_ok tr_req tr_query tr_rsp ->
+  forall tc codec comp e, wf tc = true -> fd_immediate_error_multi tc = false -> known_codec codec ->
+  expected codec tc = Ok e ->
+  forall sv cl, peers_apply sv cl tc ->
+  assert_errs (case_def tc) e (observed tr_req tr_query tr_rsp (server_of sv) (client_of cl) codec comp tc) = [].
 Proof.
-  intros tr_req tr_rsp TK tc e WF KC EX sv cl. apply assert_iff_proof.
-  apply (expectation_met_proof_body tr_req tr_rsp TK); assumption.
+  intros tr_req tr_query tr_rsp TK tc codec comp e WF KC KCO EX sv cl PA. apply assert_iff_proof.
+  apply (expectation_met_proof_body tr_req tr_query tr_rsp TK); assumption.
 Qed.
 
-Lemma expected_defined_proof : forall tc, wf tc = true -> exists e, expected tc = Ok e.
+Lemma expected_defined_proof : forall codec tc, wf tc = true -> exists e, expected codec tc = Ok e.
 Proof.
-  intros tc WF. destruct (wf_unpack tc WF) as (RNG & _ & RQ & _ & _).
+  intros codec tc WF. destruct (wf_unpack tc WF) as (RNG & _ & RQ & _ & _ & _).
   assert (ST : t_stype tc = 1 \/ t_stype tc = 2 \/ stream_kind (t_stype tc)) by (unfold stream_kind; lia).
   unfold expected. destruct ST as [S|[S|SK]].
   - rewrite S. simpl. unfold expected_unary. rewrite (first_def_wf (t_stype tc) true _ RQ (or_introl S)).
@@ -670,9 +707,21 @@ Proof.
   apply NoDup_remove_2 in ND. apply ND. apply in_or_app. right. exact Hk.
 Qed.
 
-Lemma transport_id_proof : transport_ok id_hdrs id_wire.
+(* everything of [e] occurs in [a], and [a] has no name twice *)
+Lemma included_sub e a : (forall h, In h e -> In h a) -> has_dup (map lname a) = false -> included e a.
+Proof. intros S ND h Hin. apply (nodup_included a ND). apply S. exact Hin. Qed.
+
+(* the query string connect-go writes carries what the protocol prescribes *)
+Lemma std_query_ok : forall codec comp, known_codec codec -> included (connect_get_params codec) (std_query true codec comp).
+Proof.
+  intros codec comp [-> | ->]; apply included_sub; try (vm_compute; reflexivity);
+    intros h [<-|[<-|[]]]; vm_compute; tauto.
+Qed.
+
+Lemma transport_id_proof : transport_ok id_hdrs std_query id_wire.
 Proof.
   constructor; unfold id_hdrs, id_wire; try reflexivity.
+  - exact std_query_ok.
   - intros hs W. apply nodup_included, wf_headers_nodup, W.
   - intros w W. apply nodup_included, wf_headers_nodup, W.
   - intros w W. apply nodup_included, wf_headers_nodup, W.
@@ -749,9 +798,10 @@ Proof.
   - unfold same_values. simpl. symmetry. apply header_ok_join. exact Wh.
 Qed.
 
-Lemma transport_join_proof : transport_ok join_hdrs join_wire.
+Lemma transport_join_proof : transport_ok join_hdrs std_query join_wire.
 Proof.
   constructor; try reflexivity.
+  - exact std_query_ok.
   - exact join_included.
   - intros w W. apply join_included. exact W.
   - intros w W. apply join_included. exact W.
